@@ -197,6 +197,20 @@ class Harness:
         else:
             it.localR = value
 
+    def near(self, idx, which, rel):
+        """A value a tiny relative step away from the current characteristic of a stored item (finite ones)."""
+        v = self.char(self.items[idx % len(self.items)], which if which in self.q else "g")
+        if not math.isfinite(v):
+            return 1.0 + rel
+        return v * (1.0 + rel) if v != 0.0 else rel * 1e-3
+
+    def nudge(self, idx, which, rel):
+        self.set_char(idx, which, self.near(idx, which, rel))
+        self.cls.add("nudged-characteristic")
+
+    def insert_near(self, x, idx, rel, hint):
+        self.insert(x, self.near(idx, "g", rel), self.near(idx, "l", rel), hint)
+
     def clear(self):
         self.sd.ClearQueue()
         for qm in self.q.values():
@@ -235,6 +249,11 @@ class Harness:
             # queue contents are ambiguous since an earlier tie: only the weak check above is sound
             self.cls.add("lenient-after-tie")
             self.lenient += 1
+            if self.variant == "dual":
+                # the request may have drained the real queue and refilled BOTH queues; the model cannot tell,
+                # so the other queue's contents are ambiguous from here on as well (until the next clear/refill)
+                for other in self.q.values():
+                    other.fuzzy = True
             return it
         self.strict += 1
         if self.variant == "sd":
@@ -287,6 +306,7 @@ prios = st.one_of(st.sampled_from([0.0, 1.0, 2.0, -1.0, -math.inf]), st.floats(-
 coords = st.one_of(st.integers(1, 63).map(lambda k: k / 64.0), st.floats(0.0, 1.0, allow_nan=False,
                                                                           exclude_min=True, exclude_max=True))
 maxlens = st.sampled_from([None, None, 1, 2, 3, 5, 10])
+tiny = st.sampled_from([1e-6, -1e-6, 2e-6, -2e-6, 5e-7, -5e-7, 1e-9, -1e-9, 3e-16, -3e-16, 1e-4, -1e-4])
 
 
 class _ContainerMachine(MachineMixin, RuleBasedStateMachine):
@@ -326,6 +346,19 @@ class _ContainerMachine(MachineMixin, RuleBasedStateMachine):
     def set_char(self, idx, which, v):
         self.trace.append(["set_char", idx, which, v])
         self.step(self.h.set_char, idx, which, v)
+
+    @precondition(lambda self: self.h is not None)
+    @rule(idx=st.integers(0, 1000), which=st.sampled_from(["g", "l"]), rel=tiny)
+    def nudge(self, idx, which, rel):
+        # a characteristic that changes by a few ulp or by 1e-6 relative is still a different characteristic
+        self.trace.append(["nudge", idx, which, rel])
+        self.step(self.h.nudge, idx, which, rel)
+
+    @precondition(lambda self: self.h is not None)
+    @rule(x=coords, idx=st.integers(0, 1000), rel=tiny, hint=st.booleans())
+    def insert_near(self, x, idx, rel, hint):
+        self.trace.append(["insert_near", x, idx, rel, hint])
+        self.step(self.h.insert_near, x, idx, rel, hint)
 
     @precondition(lambda self: self.h is not None)
     @rule(which=st.sampled_from(["g", "g", "l"]))
